@@ -57,10 +57,16 @@ func TestResourceShutdown(t *testing.T) {
 		isValue := rapid.IntRange(0, 2).Draw(t, "isValue") == 0
 		var val *resource.Value
 		var col *resource.Collection
+		// how the resource is configured has no bearing on how its subscriptions end
+		var ropts []resource.Option
+		noDup := rapid.IntRange(0, 2).Draw(t, "noDuplicates") == 1
+		if noDup {
+			ropts = append(ropts, resource.WithNoDuplicates())
+		}
 		if isValue {
-			val = resource.NewValue(resource.WithInitialValue(fm(0)))
+			val = resource.NewValue(append(ropts, resource.WithInitialValue(fm(0)))...)
 		} else {
-			col = resource.NewCollection(resource.WithInitialRecord("a", fm(0)), resource.WithInitialRecord("b", fm(0)))
+			col = resource.NewCollection(append(ropts, resource.WithInitialRecord("a", fm(0)), resource.WithInitialRecord("b", fm(0)))...)
 		}
 		ns := rapid.IntRange(0, 6).Draw(t, "subs")
 		subs := make([]*rsub, ns)
@@ -236,7 +242,7 @@ func TestResourceShutdown(t *testing.T) {
 		helpers.Wait()
 		desc := func() string {
 			var sb strings.Builder
-			fmt.Fprintf(&sb, "isValue=%v writes=%v", isValue, writes)
+			fmt.Fprintf(&sb, "isValue=%v noDuplicates=%v writes=%v", isValue, noDup, writes)
 			for i, s := range subs {
 				fmt.Fprintf(&sb, "\n  %v openNow=%v opened=%v cancelled=%v events=%d", s, openNow[i], s.opened.Load(), s.cancelled.Load(), s.events.Load())
 			}
